@@ -96,6 +96,7 @@ func (w *World) HasFlag(f string) bool {
 }
 
 type FileObs struct {
+	Link   string `json:"link,omitempty"` // the path is a symbolic link to this target; the other fields describe the target
 	Exists bool   `json:"exists"`
 	IsDir  bool   `json:"is_dir,omitempty"`
 	Dev    bool   `json:"dev,omitempty"`
@@ -106,7 +107,7 @@ type FileObs struct {
 }
 
 func (a FileObs) Same(b FileObs) bool {
-	return a.Exists == b.Exists && a.IsDir == b.IsDir && a.Dev == b.Dev && a.Mode == b.Mode && a.Sha == b.Sha && a.Size == b.Size
+	return a.Link == b.Link && a.Exists == b.Exists && a.IsDir == b.IsDir && a.Dev == b.Dev && a.Mode == b.Mode && a.Sha == b.Sha && a.Size == b.Size
 }
 
 type Result struct {
@@ -165,6 +166,20 @@ func observe(path string) FileObs {
 	fi, err := os.Lstat(path)
 	if err != nil {
 		return FileObs{}
+	}
+	if fi.Mode()&os.ModeSymlink != 0 {
+		target, _ := os.Readlink(path)
+		o := FileObs{Link: target}
+		if _, err := os.Stat(path); err == nil {
+			abs := target
+			if !filepath.IsAbs(abs) {
+				abs = filepath.Join(filepath.Dir(path), target)
+			}
+			t := observe(abs)
+			t.Link = target
+			return t
+		}
+		return o
 	}
 	o := FileObs{Exists: true, IsDir: fi.IsDir(), Mode: uint32(fi.Mode().Perm())}
 	if !fi.Mode().IsRegular() {
@@ -281,7 +296,18 @@ func execIsolated(w *World) *Result {
 	var out, errb bytes.Buffer
 	cmd.Stdout, cmd.Stderr = &out, &errb
 	if err := cmd.Run(); err != nil {
-		panic(fmt.Sprintf("isolated execution failed: %v\n%s", err, errb.String()))
+		// the process running the build died (a Go runtime "fatal error" such as concurrent map
+		// writes, a nil-pointer fault outside recover's reach, os.Exit from an unexpected place)
+		msg := errb.String()
+		if i := strings.Index(msg, "fatal error:"); i >= 0 {
+			msg = msg[i:]
+		}
+		if len(msg) > 3000 {
+			msg = msg[:3000]
+		}
+		r := &Result{Exit: -3, Panic: fmt.Sprintf("the process died: %v\n%s", err, msg)}
+		CaseDigest = shaStr(CaseDigest + "died")
+		return r
 	}
 	var wr wireResult
 	if err := json.Unmarshal(out.Bytes(), &wr); err != nil {
@@ -364,10 +390,17 @@ func Exec(t Target, w *World) *Result {
 	switch w.OutKind {
 	case "isdir":
 		must(os.MkdirAll(w.Out, 0755))
-	case "file":
+	case "file", "symlink":
 		must(os.MkdirAll(filepath.Dir(w.Out), 0755))
 	}
-	if w.PreOut != nil {
+	if w.OutKind == "symlink" {
+		// -o is a symbolic link to an existing regular file
+		must(os.MkdirAll(filepath.Dir(w.Out), 0755))
+		must(os.WriteFile("link_target.go", []byte(w.PreOut.Content), os.FileMode(w.PreOut.Mode)))
+		rel, err := filepath.Rel(filepath.Dir(w.Out), "link_target.go")
+		must(err)
+		must(os.Symlink(rel, w.Out))
+	} else if w.PreOut != nil {
 		must(os.WriteFile(w.Out, []byte(w.PreOut.Content), os.FileMode(w.PreOut.Mode)))
 		must(os.Chmod(w.Out, os.FileMode(w.PreOut.Mode)))
 	}
@@ -458,7 +491,7 @@ func Exec(t Target, w *World) *Result {
 		if strings.HasSuffix(p, "/") {
 			continue // directories created on the way are not judged
 		}
-		if !beforeSet[p] && filepath.Clean(p) != filepath.Clean(w.Out) {
+		if !beforeSet[p] && filepath.Clean(p) != filepath.Clean(w.Out) && p != "link_target.go" {
 			res.Stray = append(res.Stray, p)
 		}
 	}
